@@ -32,8 +32,9 @@ def run(ctx):
     # weak-memory correspondence: the real overflowing queue run with injected C11-permitted stale values
     # against the release/acquire view model (kind label oq: same access sites as the SC model)
     nra = 24000 if ctx.thorough() else 2400
-    for i in range(nsh):
-        jobs.append(("ras:oq:%d" % i, [exe, "ras", "oq", str(nra), str(i), str(nsh), str(ctx.seed), "50"]))
+    for k in KINDS:
+        for i in range(nsh):
+            jobs.append(("ras:%s:%d" % (k, i), [exe, "ras", k, str(nra), str(i), str(nsh), str(ctx.seed), "50"]))
     r = vlib.run_pipelines(jobs, driver)
     sites = {}
     ctx.cov.update({
@@ -46,11 +47,11 @@ def run(ctx):
                 "non-trivial = at least one store/successful CAS" % bound,
         "exhaustive": False,
         "weak_memory_correspondence": {
-            "rule": "seeded random schedules of fixed-role programs (1..6 pushes || 1..6 pops, capacities 0..3) of the REAL SafelyOverflowingIndexQueue in which the value returned by a load or a failed "
+            "rule": "seeded random schedules of fixed-role programs (1..6 pushes || 1..6 pops, capacities 0..3 resp. 1..3) of the REAL IndexQueue, spsc::Queue and SafelyOverflowingIndexQueue in which the value returned by a load or a failed "
                     "compare-exchange of a cursor is replaced, with probability 1/2, by an older value of that location not older than what the thread has seen (sched::stale_enable); the driver lets the "
-                    "view model (OverflowQueueRA.v, code ordering table) choose its staleness oracle from the observed value and compares every access, return value and the final content; an "
+                    "view model (SpscQueueRA.v resp. OverflowQueueRA.v, code ordering tables) choose its staleness oracle from the observed value and compares every access, return value and the final content; an "
                     "injection the model's cross-location bounds do not permit discards the execution",
-            "executions": nra, "stale_values_injected": r["extra"].get("stale_values_injected", 0),
+            "executions": 3 * nra, "stale_values_injected": r["extra"].get("stale_values_injected", 0),
             "executions_with_stale_value": r["extra"].get("executions_with_stale_value", 0),
             "discarded_invalid_injection": r["extra"].get("discarded_invalid_injection", 0)},
     })
